@@ -167,11 +167,11 @@ where
     | "Add" => pure (some (.int (a + b)))
     | "Sub" => pure (some (.int (a - b)))
     | "Mult" => pure (some (.int (a * b)))
-    | "Div" => if b == 0 then throw (.exc "ZeroDivisionError" "division by zero")
+    | "Div" => if b == 0 then throw (.exc "ZeroDivisionError" "by zero")
                else throw (.outside "true division gives a float")
-    | "FloorDiv" => if b == 0 then throw (.exc "ZeroDivisionError" "division by zero")
+    | "FloorDiv" => if b == 0 then throw (.exc "ZeroDivisionError" "by zero")
                     else pure (some (.int (Int.fdiv a b)))
-    | "Mod" => if b == 0 then throw (.exc "ZeroDivisionError" "modulo by zero")
+    | "Mod" => if b == 0 then throw (.exc "ZeroDivisionError" "by zero")
                else pure (some (.int (Int.fmod a b)))
     | "Pow" => if b < 0 then throw (.outside "negative exponent gives a float")
                else if b > bigExp then throw (.outside "huge exponent")
